@@ -729,6 +729,7 @@ func (x *c15flowX) convShoot(fd *ast.FuncDecl) string {
 	rest = rest[1:]
 	stage := 0
 	rname, okName, reqName := "", "", ""
+	var guards []string
 	for _, s := range rest {
 		switch v := s.(type) {
 		case *ast.AssignStmt:
@@ -754,6 +755,20 @@ func (x *c15flowX) convShoot(fd *ast.FuncDecl) string {
 				}
 			}
 			if stage == 3 && v.Init == nil && v.Else == nil && len(v.Body.List) == 1 {
+				// a refusal before the copy loop: `if <cond on cnt, sleep, len(result.Requests), constants> { return nil, fmt.Errorf(…) }`
+				// (1eaf10a: `if cnt > config.MaxScenarioRequests-len(result.Requests)`). The guards are emitted after the pure
+				// `let st` lines, in source order: their position relative to the pause statement does not matter.
+				if r, ok := v.Body.List[0].(*ast.ReturnStmt); ok && len(r.Results) == 2 && x.src(r.Results[1]) != "nil" {
+					gv := map[string]string{"len(result.Requests)": "(acc.length : Int)"}
+					for k, l := range vars {
+						gv[k] = l
+					}
+					x.vars = gv
+					c := x.expr(v.Cond, nil)
+					x.vars = nil
+					guards = append(guards, fmt.Sprintf("        if %s then .err (errClass %q) else\n", c, x.errMsg(r)))
+					continue
+				}
 				if a2, ok := v.Body.List[0].(*ast.AssignStmt); ok && len(a2.Lhs) == 1 && x.src(a2.Lhs[0]) == rname+".Sleep" {
 					x.vars = vars
 					c := x.expr(v.Cond, nil)
@@ -778,6 +793,9 @@ func (x *c15flowX) convShoot(fd *ast.FuncDecl) string {
 			if stage == 3 {
 				lo, hi, incl, target, elem, ok := x.countLoop(s, vars)
 				if ok && target == "result.Requests" && elem == rname {
+					for _, g := range guards {
+						b.WriteString(g)
+					}
 					fmt.Fprintf(&b, "        .ok (appendLoop acc st %s %s %v)\n", lo, hi, incl)
 					stage = 4
 					continue
